@@ -422,7 +422,8 @@ func genLimits(g *core.Gen, r *core.Rand, keys []keyT) []caseSpec {
 	// satisfies the lock (so that only the operand rules decide)
 	for _, lockOp := range []byte{0xb1, 0xb2} {
 		operands := [][]byte{{0x01}, {0x01, 0x00}, {0x00, 0x00, 0x00, 0x80, 0x00}, {0x00, 0x00, 0x00, 0x80, 0x00, 0x00},
-			{0x0a, 0x00, 0x00, 0x80, 0x00}, {0x04}, {0x07}, {0x08}, {0x00, 0x65, 0xcd, 0x1d}, {0xff, 0x64, 0xcd, 0x1d}, {0x07, 0x00, 0x40, 0x00}, {0x08, 0x00, 0x40, 0x00},
+			{0x0a, 0x00, 0x00, 0x80, 0x00}, {0x04}, {0x07}, {0x08}, {0x00, 0x65, 0xcd, 0x1d}, {0x01, 0x65, 0xcd, 0x1d}, {0xff, 0x64, 0xcd, 0x1d}, {0x07, 0x00, 0x40, 0x00}, {0x08, 0x00, 0x40, 0x00},
+			{0xff, 0xff, 0x00}, {0x00, 0x00, 0x01}, {0x07, 0x00, 0x01}, {0x07, 0x00, 0x80, 0x00},
 			{0x05, 0x00, 0x00, 0x80, 0x00}, {0x81}, {0x01, 0x00, 0x00, 0x00, 0x00}, {0xff, 0xff, 0xff, 0xff, 0x7f}, {}}
 		for _, opnd := range operands {
 			for _, fl := range []txscript.ScriptFlags{txscript.StandardVerifyFlags, consensusAll, txscript.ScriptBip16} {
@@ -452,6 +453,31 @@ func genLimits(g *core.Gen, r *core.Rand, keys []keyT) []caseSpec {
 				add("stack-leave", w, rep(0x51, n), nil, fl)
 				add("stack-leave-alt", w, cat(rep(0x51, 900), rep(0x6b, 100), rep(0x51, n-900)), nil, fl)
 				add("stack-leave-alt-only", w, cat(rep(0x51, 150), rep(0x6b, 150), rep(0x51, n-150)), nil, fl)
+			}
+		}
+	}
+	// CHECKMULTISIG key count 19 / 20 / 21 (PUBKEY_COUNT) and signature count nKeys / nKeys+1 (SIG_COUNT)
+	for _, nk := range []int{0, 1, 19, 20, 21} {
+		for _, ns := range []int{0, nk, nk + 1} {
+			if ns > 0 && nk > 1 {
+				continue
+			}
+			for _, w := range []int{wBare, wP2WSH} {
+				for _, fl := range []txscript.ScriptFlags{txscript.StandardVerifyFlags, consensusAll} {
+					var ks []byte
+					for i := 0; i < nk; i++ {
+						ks = append(ks, pushBytes(keys[i%3].comp)...)
+					}
+					sc := cat(pushNum(int64(ns)), ks, pushNum(int64(nk)), []byte{0xae})
+					if ns > 0 {
+						sc = append(sc, 0x91) // the signatures are empty: the check fails cleanly, NOT makes it true
+					}
+					items := [][]byte{{}}
+					for i := 0; i < ns; i++ {
+						items = append(items, []byte{})
+					}
+					add("multisig-counts", w, sc, items, fl)
+				}
 			}
 		}
 	}
